@@ -14,16 +14,16 @@ def is_start(ev):
 def run(pid, tier, seed):
     q = tier == "quick"
     exe = vlib.build_harness("ledger", ["ledger.cxx"])
-    tdir = os.path.join(vlib.BUILD, "traces")
+    tdir = vlib.trace_dir()
     os.makedirs(tdir, exist_ok=True)
     tp = os.path.join(tdir, "%s-%s-%d.ndjson" % (pid, tier, seed))
     vlib.record_trace(exe, ["record", "--seed", seed], tp, timeout=1200)
     # the same library under AddressSanitizer + LeakSanitizer, driven by recorders of other modules (their traces are not
     # re-validated here: only the sanitizer's verdict is taken, as a terminal event of an otherwise empty trace)
     san = []
-    runs = [("strings", ["strings.cxx"], ["record", "--seed", seed, "--n", 300]), ("seqs", ["seqs.cxx"], ["record"])]
+    runs = [("strings", ["strings.cxx"], ["record", "--seed", seed, "--n", 300]), ("seqs", ["seqs.cxx"], ["record"]),
+            ("ledger", ["ledger.cxx"], ["record", "--seed", seed + 1])]
     if not q:
-        runs.append(("ledger", ["ledger.cxx"], ["record", "--seed", seed + 1]))
         runs.append(("make", ["make.cxx"], ["record", "--seed", seed, "--runs", 3, "--len", 300]))
     for name, srcs, args in runs:
         e = vlib.build_harness(name, srcs, cfg="asan")
